@@ -273,6 +273,23 @@ class ParserSessionProp(object):
         if fault.get('kind') == 'F7':
             bump(stats, 'fault:F7_malformed_input')
 
+    def confirm(self, spec, violation):
+        """a violation seen in a run with pooled calls is re-executed with really
+        forked workers: in-process simulated workers share module globals with the
+        parent, which real workers do not (isolation artefact => harness error)"""
+        import math as _m
+        pooled = any(op.get('op') == 'call' and len(op['batch']) > op.get('max_chunk_size', 20)
+                     for op in spec['ops'])
+        if not pooled:
+            return True, 'no pooled call'
+        from depsim.runner import same_failure, execute_spec
+        res = execute_spec(self, spec, executor_mode='fork')
+        if any(same_failure(v, violation) for v in res['violations']):
+            return True, 'reproduced with forked workers'
+        if res['violations']:
+            return True, 'fails (differently) with forked workers'
+        return False, 'clean with forked workers'
+
     # ------------------------------------------------------------ to be provided
     def check_call(self, world, op, rec, stats, spec):
         raise NotImplementedError
